@@ -34,6 +34,10 @@ type Config struct {
 
 	// Scheduler.
 	StickyPm int `json:"sticky_pm"`
+	// SpawnDelayPm / SpawnDelayUs: a goroutine started by the code under test begins to run only
+	// after a virtual delay (probability in 1/1000, maximum in microseconds).
+	SpawnDelayPm int `json:"spawn_delay_pm,omitempty"`
+	SpawnDelayUs int `json:"spawn_delay_us,omitempty"`
 
 	// Disk.
 	DiskYield     bool `json:"disk_yield"`
